@@ -16,5 +16,8 @@ with driver.Lock():
 PY
 (cd coq && timeout 7200 make -j16 > ../build/setup_make.log 2>&1) || { tail -50 build/setup_make.log; echo "coq build failed"; exit 1; }
 cp /repo/go.sum harness/go.sum
-(cd harness && go build -tags verif -o ../build/bin/harness .)
+for d in harness/c[0-9][0-9]; do
+  p=$(basename $d)
+  (cd harness && go build -tags verif -o ../build/bin/h_$p ./$p) || echo "warning: harness $p does not build"
+done
 echo setup ok
